@@ -373,6 +373,18 @@ def cmdSparseOps (a : Args) : String :=
     else if op == "S" then (s, some s.saveState, out ++ ["s"], down)
     else if op == "D" then (s, saved, out ++ ["dn"], true)
     else if op == "U" then (s, saved, out ++ ["up"], false)
+    else if op.startsWith "O" && op.endsWith "m" then
+      -- a start that fails because its state-init file is missing: by then a state file that is not used has
+      -- been replaced by the blank state and the cache file has been brought to full size
+      let k := ((((op.drop 1).toString).takeWhile Char.isDigit).toString).toNat?.getD 0
+      let file := if k == 2 then [] else if k == 3 then s.file.take (s.file.length / 2) else s.file
+      let accepted := match saved with
+        | some st => decide (file.length = len) && decide (st.length = chunks.length)
+        | none => false
+      if accepted then (s, saved, out ++ ["unexpected-open"], down)   -- the saved state is used: no pre-load, the start succeeds
+      else
+        let s' := SparseSt.open fetch chunks nullID len file none none s.calls
+        (s', some (List.replicate chunks.length false), out ++ ["open-failed"], down)
     else if op.startsWith "O" then
       let withInit := op.endsWith "i"
       let k := ((((op.drop 1).toString).takeWhile Char.isDigit).toString).toNat?.getD 0
